@@ -49,7 +49,7 @@ def hostile(rng, style):
     cls = rng.choice(["lf", "cr", "crlf", "unicode-break", "closer", "own-closer", "own-opener",
                       "opener", "payload", "percent", "format-field", "non-ascii", "blank", "long",
                       "lf+closer", "trailing-break", "nested-closer", "nested-closer", "split-closer",
-                      "closer-run", "unencodable"])
+                      "closer-run", "unencodable", "compat-lookalike", "compat-lookalike"])
     pay = rng.choice(PAYLOADS)
     if cls == "lf":
         t = f"hello\n{pay}"
@@ -100,6 +100,16 @@ def hostile(rng, style):
         k = max(1, len(c) // 2)
         sur = rng.choice(["\udcff", "\ud800", "\udcff\udc80"])
         t = rng.choice([f"a {c[:k]}{sur}{c[k:]} {pay}", f"a {sur}{c} {pay}", f"name{sur}.nc\n{pay}"])
+    elif cls == "compat-lookalike":
+        # characters that Unicode normalisation / case folding / "ASCII clean-up" maps onto the closing
+        # symbol, a line break or the comment opener: full-width and small forms, parenthesised digits,
+        # the Greek question mark (NFC -> ';'), line/paragraph separators
+        c = closing or rng.choice(CLOSERS)
+        wide = "".join(chr(ord(ch) + 0xFEE0) if 0x21 <= ord(ch) <= 0x7E else ch for ch in c)
+        small = {")": "\ufe5a", "]": "\uff3d", ">": "\ufe65", ";": "\ufe54", "(": "\ufe59"}
+        alt = "".join(small.get(ch, chr(ord(ch) + 0xFEE0) if 0x21 <= ord(ch) <= 0x7E else ch) for ch in c)
+        t = rng.choice([f"a {wide} {pay}", f"a {alt} {pay}", f"step \u2474 of 3 {pay}", f"a \u037e {pay}",
+                        f"a\u2028{pay}", f"a\u2029{pay}", f"a \uff1b {wide} {pay} {wide}"])
     elif cls == "closer-run":
         c = closing or rng.choice(CLOSERS)
         t = "a " + c * rng.randint(2, 5) + " " + pay + " " + c
